@@ -15,9 +15,11 @@ package c17
 import (
 	"encoding/hex"
 	"fmt"
+	"runtime"
 	"sort"
 	"strings"
 	"testing"
+	"time"
 	"unsafe"
 
 	"verif/harness/internal/mon"
@@ -204,6 +206,40 @@ func (ai *arrInfo) classify(i int) (owner string, region int, dst bool) {
 	return last.name, 3, false
 }
 
+// change is one (argument, region) whose bytes differ from the snapshot.
+type change struct {
+	owner            string
+	region           int
+	cnt, first, last int
+}
+
+// diff compares the array with its snapshot. Bytes in dst[len:cap] of an
+// explicit destination are permitted (dstAllowed is told).
+func (ai *arrInfo) diff(dstAllowed func()) []change {
+	var out []change
+	idx := map[[2]string]int{}
+	for i := range ai.arr {
+		if ai.arr[i] == ai.snap[i] {
+			continue
+		}
+		owner, region, dst := ai.classify(i)
+		if region == 2 && dst {
+			dstAllowed()
+			continue
+		}
+		k := [2]string{owner, regionNames[region]}
+		j, ok := idx[k]
+		if !ok {
+			j = len(out)
+			idx[k] = j
+			out = append(out, change{owner: owner, region: region, first: i})
+		}
+		out[j].cnt++
+		out[j].last = i
+	}
+	return out
+}
+
 func (ai *arrInfo) hasDst() bool {
 	for _, m := range ai.members {
 		if m.dst {
@@ -233,46 +269,19 @@ func inspect(c *call, observe func(kind, what string)) []finding {
 	}
 	arrays := groupArrays(c.args)
 	for _, ai := range arrays {
-		type key struct {
-			owner  string
-			region int
-		}
-		type run struct{ cnt, first, last int }
-		runs := map[key]*run{}
-		var order []key
-		for i := range ai.arr {
-			if ai.arr[i] == ai.snap[i] {
-				continue
-			}
-			owner, region, dst := ai.classify(i)
-			if region == 2 && dst {
-				observe("dst", "dst.spare_written_allowed")
-				continue
-			}
-			k := key{owner, region}
-			r := runs[k]
-			if r == nil {
-				r = &run{first: i}
-				runs[k] = r
-				order = append(order, k)
-			}
-			r.cnt++
-			r.last = i
-		}
-		for _, k := range order {
-			r := runs[k]
-			w := ai.member(k.owner)
-			a, b := r.first, r.last+1
+		for _, ch := range ai.diff(func() { observe("dst", "dst.spare_written_allowed") }) {
+			w := ai.member(ch.owner)
+			a, b := ch.first, ch.last+1
 			lay := ""
 			if c.layout != "" {
 				lay = fmt.Sprintf(" [arguments share one array, layout %s: %s]", c.layout, describeMembers(ai))
 			}
 			out = append(out, finding{
-				sig: fmt.Sprintf("%s/%s/%s-written%s", c.fn, k.owner, regionNames[k.region], sfx),
+				sig: fmt.Sprintf("%s/%s/%s-written%s", c.fn, ch.owner, regionNames[ch.region], sfx),
 				msg: fmt.Sprintf("%s (%s, path %s, outcome %s) changed %d byte(s) of the caller's %s argument in its %s region: slice index %d..%d (len %d, cap %d)%s",
-					c.fn, c.alg, c.path, c.outcome(), r.cnt, k.owner, regionNames[k.region], a-w.off, b-1-w.off, w.n, w.n+w.spare, lay),
-				detail: map[string]any{"arg": k.owner, "region": regionNames[k.region], "slice_index_first": a - w.off, "slice_index_last": b - 1 - w.off,
-					"array_index_first": a, "changed": r.cnt, "before": hexN(ai.snap[a:b]), "after": hexN(ai.arr[a:b])},
+					c.fn, c.alg, c.path, c.outcome(), ch.cnt, ch.owner, regionNames[ch.region], a-w.off, b-1-w.off, w.n, w.n+w.spare, lay),
+				detail: map[string]any{"arg": ch.owner, "region": regionNames[ch.region], "slice_index_first": a - w.off, "slice_index_last": b - 1 - w.off,
+					"array_index_first": a, "changed": ch.cnt, "before": hexN(ai.snap[a:b]), "after": hexN(ai.arr[a:b])},
 			})
 		}
 	}
@@ -457,6 +466,7 @@ func (c *call) judge() int {
 		// shared arguments (retained keys) are re-synchronised so one write is reported once
 		copy(w.snap, w.arr)
 	}
+	keep(c)
 	rec.Count("args.watched", len(c.args))
 	rec.Count("bytes.compared", watched)
 	rec.Count("results.located", len(c.res))
@@ -653,6 +663,182 @@ func selftest() {
 	}
 }
 
+// ---------------------------------------------------------------- deferred writes
+
+// Every caller-owned array of a case stays referenced (with its snapshot,
+// which judge re-synchronises to the state right after the call) until the end
+// of the case. Then everything kit returned is unreachable (calls, results,
+// AEAD objects are locals of the finished rounds), finalizers and cleanups are
+// forced to run, and all arrays are compared once more: a write that kit
+// deferred past its return (runtime.SetFinalizer / AddCleanup / a goroutine
+// "wiping" key material it only holds by reference) shows up here.
+type keptArray struct {
+	ai                    *arrInfo
+	fn, alg, path, layout string
+	fns                   []string
+	calls                 int
+	idx                   int // case the buffer belongs to
+	kase, kind            string
+}
+
+type redo struct {
+	desc string
+	f    func() bool
+}
+
+var (
+	kept      = map[*byte]*keptArray{}
+	keptOrder []*keptArray
+	redos     []redo
+	curIdx    int
+	curGroup  group
+	pending   int // cases run since the last deferred step
+)
+
+const (
+	maxRedos      = 48
+	deferredEvery = 12 // cases per deferred step (every case's buffers are re-compared exactly once)
+)
+
+func keep(c *call) {
+	for _, ai := range groupArrays(c.args) {
+		k := kept[&ai.arr[0]]
+		if k == nil {
+			k = &keptArray{ai: ai, fn: c.fn, alg: c.alg, path: c.path, layout: c.layout, idx: curIdx, kase: curGroup.String(), kind: curGroup.kind}
+			kept[&ai.arr[0]] = k
+			keptOrder = append(keptOrder, k)
+		} else {
+			// later calls may see more arguments in the same array: keep the widest view
+			for _, m := range ai.members {
+				seen := false
+				for _, x := range k.ai.members {
+					seen = seen || (x.name == m.name && x.off == m.off && x.n == m.n)
+				}
+				if !seen {
+					k.ai.members = append(k.ai.members, m)
+				}
+			}
+		}
+		k.calls++
+		if len(k.fns) < 6 && (len(k.fns) == 0 || k.fns[len(k.fns)-1] != c.fn) {
+			k.fns = append(k.fns, c.fn)
+		}
+	}
+}
+
+// keepRedo registers a repetition of an earlier successful call on the very
+// same buffers and key object, to be run after the finalizers.
+func keepRedo(desc string, f func() bool) {
+	if len(redos) < maxRedos {
+		redos = append(redos, redo{desc, f})
+	}
+}
+
+type sentinel struct {
+	p   *int
+	pad [48]byte
+}
+
+// drainFinalizers forces two rounds of garbage collection + finalizer /
+// cleanup execution. Each round ends when a sentinel allocated after the
+// collection has had its own finalizer and cleanup run. false = the sentinel
+// did not fire within the (generous, wall-clock) limit.
+func drainFinalizers() bool {
+	for round := 0; round < 2; round++ {
+		runtime.GC() // whatever kit left unreachable is found now and its finalizers / cleanups are queued
+		fin, cln := make(chan struct{}), make(chan struct{})
+		s := &sentinel{p: new(int)}
+		runtime.SetFinalizer(s, func(*sentinel) { close(fin) })
+		s2 := &sentinel{p: new(int)}
+		runtime.AddCleanup(s2, func(ch chan struct{}) { close(ch) }, cln)
+		s, s2 = nil, nil
+		_, _ = s, s2
+		limit := time.After(60 * time.Second)
+		for _, ch := range []chan struct{}{fin, cln} {
+			for done := false; !done; {
+				select {
+				case <-ch:
+					done = true
+					continue
+				default:
+				}
+				runtime.GC() // the sentinels are queued behind the earlier finalizers
+				select {
+				case <-ch:
+					done = true
+				case <-limit:
+					return false
+				case <-time.After(5 * time.Millisecond):
+				}
+			}
+		}
+		for i := 0; i < 4; i++ {
+			runtime.Gosched() // cleanups may run on several goroutines
+		}
+	}
+	return true
+}
+
+func deferredStep() {
+	defer func() {
+		kept, keptOrder, redos, pending = map[*byte]*keptArray{}, nil, nil, 0
+	}()
+	if len(keptOrder) == 0 {
+		return
+	}
+	if !drainFinalizers() {
+		rec.Inconclusive(curIdx, "deferred-write step: the finalizer/cleanup sentinel did not run within 60s", curGroup.String())
+		return
+	}
+	rec.Count("deferred.steps", 1)
+	kinds := map[int]bool{}
+	for _, k := range keptOrder {
+		if !kinds[k.idx] {
+			kinds[k.idx] = true
+			rec.Count("deferred.cases", 1)
+			rec.Count("deferred.kind."+k.kind, 1)
+		}
+	}
+	viol := 0
+	for _, k := range keptOrder {
+		rec.Count("deferred.arrays_rechecked", 1)
+		rec.Count("deferred.bytes_rechecked", len(k.ai.arr))
+		rec.Count("deferred.fn."+fnBase(k.fn), 1)
+		sfx := ""
+		if k.layout != "" {
+			sfx = "@" + k.layout
+		}
+		for _, ch := range k.ai.diff(func() {}) {
+			viol++
+			w := k.ai.member(ch.owner)
+			a, b := ch.first, ch.last+1
+			rec.Violation(k.idx, fmt.Sprintf("%s/%s/written-after-return%s", k.fn, ch.owner, sfx),
+				fmt.Sprintf("%d byte(s) of the caller's %s buffer (%s region, slice index %d..%d, len %d, cap %d) changed AFTER the call(s) it was handed to had returned (%s, %s, first path %s; %d call(s): %v): seen once nothing kit returned was reachable any more and finalizers/cleanups had run",
+					ch.cnt, ch.owner, regionNames[ch.region], a-w.off, b-1-w.off, w.n, w.n+w.spare, k.fn, k.alg, k.path, k.calls, k.fns),
+				map[string]any{"fn": k.fn, "algorithm": k.alg, "first_path": k.path, "calls_given_this_buffer": k.fns, "arg": ch.owner, "region": regionNames[ch.region],
+					"members": describeMembers(k.ai), "array_after_call": hexN(k.ai.snap), "array_after_finalizers": hexN(k.ai.arr),
+					"slice_index_first": a - w.off, "changed": ch.cnt, "seed": mon.Seed(), "case": k.kase,
+					"how": "hand the buffer to fn as in the ordinary check, keep it, drop every kit result, runtime.GC() twice, wait for a sentinel finalizer, compare the buffer with its content right after the call"})
+		}
+	}
+	for _, r := range redos {
+		ok := false
+		func() {
+			defer func() { recover() }()
+			ok = r.f()
+		}()
+		switch {
+		case ok:
+			rec.Count("deferred.redo_ok", 1)
+		case viol > 0:
+			rec.Count("deferred.redo_failed_after_buffer_changed", 1)
+		default:
+			rec.Count("deferred.redo_failed_not_judged", 1)
+			rec.Observe("deferred step: repeating " + r.desc + " on the same buffers and key object failed although no buffer had changed (not judged)")
+		}
+	}
+}
+
 // ---------------------------------------------------------------- plan
 
 type group struct {
@@ -691,7 +877,7 @@ func plan() []group {
 func TestCheck(t *testing.T) {
 	rec = mon.Open("C17")
 	defer rec.Close()
-	rec.Note("rule", "A case is one call into kit: (function, algorithm, success/failure path, argument lengths, per-argument layout off/spare, repetition). Every []byte argument (and every raw key slice given to jwk.FromRaw, which jwx retains by reference) is arr[off:off+len:off+len+spare] of its own canary-filled array, off in {0,1,16}, spare in {0,1,15,16,17,64}; after the call the whole array (before the slice, slice, spare capacity, 8 guard bytes) is compared with its snapshot; only dst[len:cap] of the explicit aescbcaead Seal/Open dst may differ. Returned slices are located against every argument array. Repetition 0 is a systematic sweep: all algorithms of SupportedSymmetric/Asymmetric/SignatureAlgorithms x lengths 0,1,15,16,17,31,32,33,48 x 18 rounds in which every argument position cycles through all 18 layouts x every success and failure path (wrong/short/long/nil tag, wrong nonce size, wrong key size/bytes/type, tampered or truncated ciphertext, wrong associated data, crafted bad padding, unsupported algorithm, too-long RSA plaintext, wrong digest size, ...). crypto.ParseKey: raw binary keys, base64 / base64url / hex key text with and without padding, JWK, JWK set, PEM of every block type the standard library marshals (PKCS#1, PKCS#8, PKIX, SEC1, X25519, CERTIFICATE, with headers), each with leading / trailing / interior blanks, tabs, LF and CRLF, folded and indented lines, truncated, doubled, under every content type and auto-detection branch, each parsed twice; seeded repetitions sprinkle 1-3 more blanks / tabs / line breaks at drawn positions; the parsed key is then serialized and used while the caller's buffer stays watched. The exported functions taking []byte are listed in the note api_exported_functions_taking_bytes (parsed from the source under test at start-up and required to equal the harness's covered list). Chained calls (chain.* counters): the inputs of a call are the live slices earlier kit calls returned, snapshotted over their whole capacity at call time - 2 and 3 layer decrypt-of-decrypt for every AEAD family and mixes (outer plaintext split into inner ciphertext and tag), unwrapped content key (AEAD, key wrap, CBC, RSA-OAEP) as the key of the payload decrypt (payload smaller and larger than the key message, decrypted twice), decrypted value as associated data / nonce of a smaller or larger second message, encrypt->encrypt->decrypt->decrypt entirely on returned slices, decrypt->digest->sign->verify, aescbcaead Open->Open. Aliasing layouts (alias.* counters): for every function with two or more caller-owned byte buffers the arguments are additionally cut out of ONE array - ciphertext directly followed by the tag (ct=msg[:n] whose spare capacity is the tag, and ct=msg[:n:n]), nonce||ct||tag, ad||nonce||ct||tag, ad||ct||tag, tag||ct, key||ct||tag, nonce||pt, ad||nonce||pt, key||pt, pt||key, digest||signature, key||digest||signature, the slices a previous kit Encrypt/Seal/Sign call returned handed straight back (their whole capacity is snapshotted), and the same slice given as two arguments (associatedData==nonce, plaintext==label, digest==signature); each clean call is repeated once with the identical arguments, the memory judged again and the two results compared; results are compared with the expected plaintext/ciphertext. Repetitions >= 1 draw layouts, contents and a third of the lengths (0..80) from the seeded stream. distinct = distinct (function, algorithm, path, lengths, layouts, repetition) tuples; non-trivial = at least one watched argument has spare capacity > 0.")
+	rec.Note("rule", "A case is one call into kit: (function, algorithm, success/failure path, argument lengths, per-argument layout off/spare, repetition). Every []byte argument (and every raw key slice given to jwk.FromRaw, which jwx retains by reference) is arr[off:off+len:off+len+spare] of its own canary-filled array, off in {0,1,16}, spare in {0,1,15,16,17,64}; after the call the whole array (before the slice, slice, spare capacity, 8 guard bytes) is compared with its snapshot; only dst[len:cap] of the explicit aescbcaead Seal/Open dst may differ. Returned slices are located against every argument array. Repetition 0 is a systematic sweep: all algorithms of SupportedSymmetric/Asymmetric/SignatureAlgorithms x lengths 0,1,15,16,17,31,32,33,48 x 18 rounds in which every argument position cycles through all 18 layouts x every success and failure path (wrong/short/long/nil tag, wrong nonce size, wrong key size/bytes/type, tampered or truncated ciphertext, wrong associated data, crafted bad padding, unsupported algorithm, too-long RSA plaintext, wrong digest size, ...). crypto.ParseKey: raw binary keys, base64 / base64url / hex key text with and without padding, JWK, JWK set, PEM of every block type the standard library marshals (PKCS#1, PKCS#8, PKIX, SEC1, X25519, CERTIFICATE, with headers), each with leading / trailing / interior blanks, tabs, LF and CRLF, folded and indented lines, truncated, doubled, under every content type and auto-detection branch, each parsed twice; seeded repetitions sprinkle 1-3 more blanks / tabs / line breaks at drawn positions; the parsed key is then serialized and used while the caller's buffer stays watched. The exported functions taking []byte are listed in the note api_exported_functions_taking_bytes (parsed from the source under test at start-up and required to equal the harness's covered list). Deferred writes (deferred.* counters): every caller-owned array of a case (one plan entry = 18 rounds of calls) stays referenced with its after-call snapshot; after every 12 cases (and at the end) nothing kit returned is reachable, two rounds of runtime.GC + a sentinel finalizer and a sentinel cleanup are awaited (wall-clock limit 60 s -> inconclusive), then all arrays are compared again (signature fn/arg/written-after-return) and up to 48 earlier successful decrypts are repeated with the same key object and buffers. Chained calls (chain.* counters): the inputs of a call are the live slices earlier kit calls returned, snapshotted over their whole capacity at call time - 2 and 3 layer decrypt-of-decrypt for every AEAD family and mixes (outer plaintext split into inner ciphertext and tag), unwrapped content key (AEAD, key wrap, CBC, RSA-OAEP) as the key of the payload decrypt (payload smaller and larger than the key message, decrypted twice), decrypted value as associated data / nonce of a smaller or larger second message, encrypt->encrypt->decrypt->decrypt entirely on returned slices, decrypt->digest->sign->verify, aescbcaead Open->Open. Aliasing layouts (alias.* counters): for every function with two or more caller-owned byte buffers the arguments are additionally cut out of ONE array - ciphertext directly followed by the tag (ct=msg[:n] whose spare capacity is the tag, and ct=msg[:n:n]), nonce||ct||tag, ad||nonce||ct||tag, ad||ct||tag, tag||ct, key||ct||tag, nonce||pt, ad||nonce||pt, key||pt, pt||key, digest||signature, key||digest||signature, the slices a previous kit Encrypt/Seal/Sign call returned handed straight back (their whole capacity is snapshotted), and the same slice given as two arguments (associatedData==nonce, plaintext==label, digest==signature); each clean call is repeated once with the identical arguments, the memory judged again and the two results compared; results are compared with the expected plaintext/ciphertext. Repetitions >= 1 draw layouts, contents and a third of the lengths (0..80) from the seeded stream. distinct = distinct (function, algorithm, path, lengths, layouts, repetition) tuples; non-trivial = at least one watched argument has spare capacity > 0.")
 	rec.Note("require", []string{
 		"selftest.passed",
 		"fn.padding.PadPKCS7", "fn.padding.UnpadPKCS7", "fn.aeskw.Wrap", "fn.aeskw.Unwrap",
@@ -717,6 +903,16 @@ func TestCheck(t *testing.T) {
 		"alias.layout.nonce|sealed", "alias.layout.ad|nonce|sealed", "alias.layout.nonce|sealed/tight", "alias.layout.key|sealed",
 		"alias.crypto.DecryptSymmetric.ct|tag", "alias.crypto.Decrypt.ct|tag", "alias.crypto.DecryptSymmetric.returned-slices", "alias.crypto.Decrypt.returned-slices",
 		"alias.second_call_same_result", "alias.output_correct",
+		// deferred writes: every caller buffer re-compared after GC + finalizers / cleanups, per function
+		"deferred.steps", "deferred.cases", "deferred.arrays_rechecked", "deferred.redo_ok",
+		"deferred.kind.pad", "deferred.kind.kw", "deferred.kind.aead", "deferred.kind.sym", "deferred.kind.rsa", "deferred.kind.sig", "deferred.kind.parse",
+		"deferred.kind.alias-sym", "deferred.kind.alias-rsa", "deferred.kind.alias-sig", "deferred.kind.alias-aead", "deferred.kind.chain",
+		"deferred.fn.padding.PadPKCS7", "deferred.fn.padding.UnpadPKCS7", "deferred.fn.aeskw.Wrap", "deferred.fn.aeskw.Unwrap",
+		"deferred.fn.aescbcaead.NewAESCBC128SHA256", "deferred.fn.aescbcaead.NewAESCBC192SHA384", "deferred.fn.aescbcaead.NewAESCBC256SHA384", "deferred.fn.aescbcaead.NewAESCBC256SHA512",
+		"deferred.fn.aescbcaead.Seal", "deferred.fn.aescbcaead.Open",
+		"deferred.fn.crypto.Encrypt", "deferred.fn.crypto.Decrypt", "deferred.fn.crypto.EncryptSymmetric", "deferred.fn.crypto.DecryptSymmetric",
+		"deferred.fn.crypto.EncryptPublicKey", "deferred.fn.crypto.DecryptPrivateKey", "deferred.fn.crypto.SignPrivateKey", "deferred.fn.crypto.VerifyPublicKey",
+		"deferred.fn.crypto.ParseKey",
 		// chained calls: inputs are slices returned by earlier kit calls
 		"chain.inputs_from_returned_slices", "chain.output_correct",
 		"chain.layered-decrypt.completed", "chain.unwrap->key.completed", "chain.decrypt->ad.completed", "chain.decrypt->nonce.completed",
@@ -735,6 +931,7 @@ func TestCheck(t *testing.T) {
 			continue
 		}
 		rec.Begin(idx, g.String())
+		curIdx, curGroup = idx, g
 		gc := &gctx{idx: idx, rep: g.rep, rng: mon.NewRNG("c17-"+g.kind, idx), salt: idx * 31}
 		for gc.round = 0; gc.round < rounds; gc.round++ {
 			switch g.kind {
@@ -765,5 +962,9 @@ func TestCheck(t *testing.T) {
 			}
 			rec.Progress()
 		}
+		if pending++; pending >= deferredEvery {
+			deferredStep()
+		}
 	}
+	deferredStep()
 }
